@@ -314,3 +314,64 @@ func loopBodyEntry(b *ssa.BasicBlock) *ssa.BasicBlock {
 	}
 	return nil
 }
+
+// scannerBytesRetained: (*bufio.Scanner).Bytes() returns a window into the scanner's own buffer that
+// the next Scan overwrites. Storing that slice (or a sub-slice) into memory that outlives the
+// iteration - appending it to a list, sending it, putting it in a map or struct - without copying
+// makes earlier lines change after the fact. Reports one violation per retaining site; nothing otherwise.
+func scannerBytesRetained(c *Ctx, rule string, fs []*ssa.Function) {
+	for _, f := range fs {
+		eachInstr(f, func(i ssa.Instruction) {
+			call, ok := i.(*ssa.Call)
+			if !ok || calleeName(call) != "(*bufio.Scanner).Bytes" {
+				return
+			}
+			vals := map[ssa.Value]bool{call: true}
+			for changed := true; changed; {
+				changed = false
+				for v := range vals {
+					if v.Referrers() == nil {
+						continue
+					}
+					for _, r := range *v.Referrers() {
+						switch x := r.(type) {
+						case *ssa.Slice:
+							if !vals[x] {
+								vals[x], changed = true, true
+							}
+						case *ssa.Phi:
+							if !vals[x] {
+								vals[x], changed = true, true
+							}
+						}
+					}
+				}
+			}
+			for v := range vals {
+				if v.Referrers() == nil {
+					continue
+				}
+				for _, r := range *v.Referrers() {
+					retained := ""
+					switch x := r.(type) {
+					case *ssa.Store:
+						if x.Val == v {
+							retained = "stored"
+						}
+					case *ssa.Send:
+						if x.X == v {
+							retained = "sent on a channel"
+						}
+					case *ssa.MapUpdate:
+						if x.Value == v {
+							retained = "put in a map"
+						}
+					}
+					if retained != "" {
+						c.bad(rule, "scanner.Bytes() retained in "+strings.TrimPrefix(fname(f), "poly/"), r.Pos(), "the slice returned by scanner.Bytes() is "+retained+" without being copied: it points into the scanner's buffer, which the next Scan overwrites, so lines collected earlier change afterwards (long or many-line records come back corrupted)")
+					}
+				}
+			}
+		})
+	}
+}
